@@ -222,15 +222,16 @@ def loadNodeF (succ : List PEntry) (lm : List (Nat × Nat)) :
           | (.error er, m1) => (.error er, m1)
           | (.ok _, m1) => (.error .type, m1)
 
-/-- `for u in succ: if u in umap: continue; self._load(u, succ, umap, level_map)` -/
-def loadAll (succ : List PEntry) (lm : List (Nat × Nat)) :
+/-- `for u in succ: if u in umap: continue; self._load(u, succ, umap, level_map)`;
+`fuel` stands for Python's recursion limit -/
+def loadAll (succ : List PEntry) (lm : List (Nat × Nat)) (fuel : Nat) :
     List PEntry → TreeMap Int Int → M (TreeMap Int Int)
   | [], umap => fun m => (.ok umap, m)
   | e :: rest, umap => fun m =>
-    if umap.contains (e.id : Int) then loadAll succ lm rest umap m else
-    match loadNodeF succ lm (succ.length + 1) (e.id : Int) umap m with
+    if umap.contains (e.id : Int) then loadAll succ lm fuel rest umap m else
+    match loadNodeF succ lm fuel (e.id : Int) umap m with
     | (.error er, m1) => (.error er, m1)
-    | (.ok (_, umap1), m1) => loadAll succ lm rest umap1 m1
+    | (.ok (_, umap1), m1) => loadAll succ lm fuel rest umap1 m1
 
 /-- `map_node` of `BDD.load` -/
 def mapNode (umap : TreeMap Int Int) (u : Int) : Except Err Int :=
@@ -243,7 +244,9 @@ def loadPickle (f : PickleFile) (levels : Bool) : M Roots := fun m =>
   match loadVars levels f.vars.length f.vars [] m with
   | (.error e, m1) => (.error e, m1)
   | (.ok lm, m1) =>
-    match loadAll f.succ lm f.succ {} m1 with
+    -- a path of a well-formed file has at most one node per level; any acyclic file has
+    -- paths of at most `len(succ)` nodes
+    match loadAll f.succ lm (f.vars.length + f.succ.length + 2) f.succ {} m1 with
     | (.error e, m2) => (.error e, m2)
     | (.ok umap, m2) => (f.roots.mapE (mapNode umap), m2)
 
